@@ -171,6 +171,8 @@ def find_pattern(text, pattern, want_caps=False):
                 e = i
                 while e < n:
                     t = T[e]
+                    if depth == 0 and t.k == rsx.P and t.s in (';', '{', '}'):
+                        return None   # a capture never crosses a statement or block boundary
                     if depth == 0 and e > i and nxt is not None and not isinstance(nxt, tuple) and (nxt is None or t.s == nxt):
                         r = match(e, j + 1, caps)
                         if r is not None:
@@ -192,6 +194,8 @@ def find_pattern(text, pattern, want_caps=False):
 
     for i in range(n):
         caps = {}
+        if isinstance(ps[0], tuple) and i > 0 and not (T[i - 1].k == rsx.P and T[i - 1].s in (';', '{', '}', '=', '(', ',')):
+            continue   # a leading capture starts at an expression / statement boundary
         e = match(i, 0, caps)
         if e is not None and e > i:
             if want_caps:
